@@ -93,4 +93,16 @@ func init() {
 		Stubbed: []string{"sync.Mutex (simulated)", "the underlying in/out streams (simulated: short reads, errors, blocking, Close that does or does not unblock)"},
 		Assumptions: []string{"the standard library is that of go1.26.8", "a goroutine woken by another goroutine's channel operation runs only up to its next scheduling point concurrently with its waker"},
 	})
+	register(&spec{
+		ID: "C39", Title: "Every JSON-RPC call completes exactly once with its own answer", Level: "exploration",
+		Instrument: map[string]simgen.Options{xgo + "/x/jsonrpc2": {Sync: true, Conc: true, Maps: true}},
+		Harness:    []harnessCopy{{"c39", "x/jsonrpc2"}},
+		TestPkg:    "x/jsonrpc2", TestName: "TestZSimC39",
+		QuickRuns: 6000, ThoroughRuns: 2000000, QuickBudget: 4 * time.Minute, ThoroughBudget: 60 * time.Minute,
+		MaxStepsQuick: 8000, MaxStepsThor: 30000, Chunk: 375,
+		Rule: "each run draws a transport (synchronous pipe like net.Pipe, or 64/4096-byte buffers), a fault plan (none in ~35% of runs; otherwise short reads, chunked writes, a failing write or read, a cut at a byte offset, a stall healed in the settle phase), 1-4 caller tasks spread over the two endpoints issuing calls (echo, peek answered on the read loop, slow, async with a later Respond, re-entrant, failing, unknown), notifications, cancel notifications, cancelled Await contexts, second awaiters, Close and Wait, and a scheduling strategy. After the first quiescence faults stop, blocked handlers are released and both ends are closed. Non-trivial = at least one completed Await and 10 context switches; distinct = distinct (event-log hash, workload hash) pairs",
+		Real: []string{"x/jsonrpc2 conn.go, serve.go (Dial, NewServer/run, newConnection), frame.go (HeaderFramer), messages.go, wire.go, jsonrpc2.go compiled from the working tree", "real channels/select (polling order decided by the simulator), context, encoding/json, bufio"},
+		Stubbed: []string{"sync.Mutex/WaitGroup/Once and sync/atomic (simulated / yield-wrapped)", "the byte transport (simnet pipe) and the listener", "application handlers, preempter and binder (harness)", "idleListener, stdio and langserver are not exercised"},
+		Assumptions: []string{"the harness uses the API legally (Respond exactly once per asynchronous request, Preempt never blocks)", "the standard library is that of go1.26.8"},
+	})
 }
